@@ -101,6 +101,12 @@ def key_term(ex, st, v):
         v = ex.models.slot_load(st, v)
     if isinstance(v, (VSym, VInt)):
         return v.t
+    if isinstance(v, VOpaque) and v.tag == "bytes":
+        ids = st.meta.setdefault("slice_ids", {})
+        k = str(v.data)
+        if k not in ids:
+            ids[k] = ex.fresh("bytes_key")
+        return ids[k]
     raise Unsupported(f"map key of type {type(v).__name__}: {v}")
 
 
@@ -345,7 +351,7 @@ class Models:
         R("BTreeMap as Clone::clone", lambda ex, st, fr, c, a, d, r: st.load(a[0]).clone())
         # -- smart pointers / locks
         R("Arc::new", lambda ex, st, fr, c, a, d, r: VStruct("Arc", [a[0]]))
-        R(["Arc as Deref::deref", "Cas as Deref::deref"], lambda ex, st, fr, c, a, d, r: VRef(a[0].cell, a[0].path + (0,)))
+        R(["Arc as Deref::deref", "Cas as Deref::deref"], m_arc_deref)
         R("Arc as Clone::clone", lambda ex, st, fr, c, a, d, r: st.load(a[0]).clone())
         R(["Mutex::lock", "RwLock::read", "RwLock::write"], m_lock)
         R(["Mutex::new", "RwLock::new"], m_lock_new)
@@ -374,6 +380,8 @@ class Models:
         return None
 
     def ptr_metadata(self, ex, st, tgt):
+        if isinstance(tgt, VOpaque) and isinstance(tgt.data, tuple) and tgt.data and tgt.data[0] == "slice":
+            return VInt(tgt.data[3], "usize")
         if isinstance(tgt, VOpaque):
             key = ("len", str(tgt.data)[:120])
             lens = st.meta.setdefault("oplens", {})
@@ -485,7 +493,8 @@ def m_sat_sub(ex, st, fr, c, a, d, r):
 def m_vec_with_capacity(ex, st, fr, c, a, d, r):
     v = VVec([])
     v.cap_req = a[0].t
-    st.event("alloc", what="Vec::with_capacity", n=a[0].t, where=fr.fn.name.split("::")[-1])
+    m = re.search(r"Vec::<(.*)>::with_capacity", c)
+    st.event("alloc", what="Vec::with_capacity", n=a[0].t, elem=(m.group(1) if m else "?"), where=fr.fn.name.split("::")[-1])
     return v
 
 
@@ -535,6 +544,8 @@ def m_into_iter_ref(ex, st, fr, c, a, d, r):
         v = st.load(base)
     if isinstance(v, VMap):
         return m_map_iter(ex, st, fr, c, [base], d, r)
+    if isinstance(v, VIter) or (isinstance(v, VStruct) and v.name in ("Range", "ChunksExact", "Chunks", "SegmentReader")):
+        return a[0]   # `&mut I` is itself an iterator
     return VIter([(None, VRef(base.cell, base.path + (i,))) for i in range(len(v.elems))])
 
 
@@ -1102,6 +1113,8 @@ def m_map_new(ex, st, fr, c, a, d, r):
         raise Unsupported("map constructor without type arguments: " + c)
     kt = base_type(targs[0])
     vt = base_type(targs[1]) if kind != "HashSet" and len(targs) > 1 else "()"
+    if kt == "Vec":
+        kt = "K"   # byte-string keys: identified by an integer id per distinct slice (see key_term)
     if kt not in ("BlobHash", "K") or vt not in SHAPES:
         raise Unsupported(f"map of {kt} -> {vt} is not modelled")
     mm = new_map("btree" if kind == "BTreeMap" else "hash", SHAPES[vt])
@@ -1151,6 +1164,13 @@ def m_map_len(ex, st, fr, c, a, d, r):
 
 
 # ---- locks ------------------------------------------------------------------------------------------------
+
+def m_arc_deref(ex, st, fr, c, a, d, r):
+    v = st.load(a[0])
+    if isinstance(v, VStruct) and v.name == "ArcAlias":
+        return v.fields[0]          # an Arc that shares its pointee with another value
+    return VRef(a[0].cell, a[0].path + (0,))
+
 
 def m_lock_new(ex, st, fr, c, a, d, r):
     kind = "Mutex" if "Mutex" in c else "RwLock"
